@@ -1646,6 +1646,35 @@ def gen_simd_kernels(repo):
     stm = [' '.join(x.split()) for x in body[body.index('{') + 1:body.rindex('}')].split(';') if x.strip()]
     out += '/-- %s: set_dst_pixel: its statements -/\n' % f2a
     out += 'def u8x2_avx2_set_dst_pixel : String := "%s"\n\n' % ' ; '.join(stm).replace('"', '\\"')
+    # two-channel 8-bit images on AVX2, one-row kernel: 256-bit masks by halves, the 128-bit mask pix_sh4, call sequence, branches
+    m = re.search(r'unsafe fn horiz_convolution_one_row\(.*?\n\}', src2a, re.S)
+    if not m:
+        raise TranslationError("%s: horiz_convolution_one_row not found" % f2a)
+    body = re.sub(r'//[^\n]*', '', m.group(0))
+    body = re.sub(r'/\*.*?\*/', '', body, flags=re.S)
+    masks = []
+    for a in re.finditer(r'let (\w+_sh\d+) = _mm256_set_epi8\(([^;]*?)\);', body, re.S):
+        vals = [int(x) for x in a.group(2).replace('\n', ' ').split(',') if x.strip()]
+        if len(vals) != 32:
+            raise TranslationError("%s: mask %s does not have 32 entries" % (f2a, a.group(1)))
+        masks.append((a.group(1), list(reversed(vals))))
+    if [n for n, _ in masks] != ['pix_sh1', 'coeff_sh1', 'pix_sh2', 'coeff_sh2', 'pix_sh3', 'coeff_sh3']:
+        raise TranslationError("%s: one-row kernel: unexpected 256-bit masks %s" % (f2a, [n for n, _ in masks]))
+    for n, v in masks:
+        for half, part in (('lo', v[:16]), ('hi', v[16:])):
+            out += '/-- %s: horiz_convolution_one_row: %s 128-bit half of the shuffle mask %s, byte 0 first -/\n' % (f2a, 'low' if half == 'lo' else 'high', n)
+            out += 'def u8x2_avx2_one_%s_%s : List Int := [%s]\n\n' % (n, half, ', '.join(str(x) if x >= 0 else '(%d)' % x for x in part))
+    a = re.search(r'let pix_sh4 = _mm_set_epi8\(([^;]*?)\);', body, re.S)
+    if not a:
+        raise TranslationError("%s: pix_sh4 not found" % f2a)
+    vals = list(reversed([int(x) for x in a.group(1).replace('\n', ' ').split(',') if x.strip()]))
+    out += '/-- %s: horiz_convolution_one_row: 128-bit shuffle mask pix_sh4, byte 0 first -/\n' % f2a
+    out += 'def u8x2_avx2_one_pix_sh4 : List Int := [%s]\n\n' % ', '.join(str(x) if x >= 0 else '(%d)' % x for x in vals)
+    calls = re.findall(r'\b(_mm(?:256)?_\w+(?:::<\w+>)?|simd_utils::\w+|chunks_exact|remainder|is_empty|saturating_add|normalizer\.clip|normalizer\.precision)\(([^()]*(?:\([^()]*\)[^()]*)*)\)', body)
+    sk = ' ; '.join('%s(%s)' % (c, ' '.join(a.split())) for c, a in calls if not c.endswith('set_epi8'))
+    extra = ' ; '.join(' '.join(x.split()) for x in re.findall(r'(if coeffs\.len\(\) < \d+|coeffs\[i\] = coeff|pixels\[i \* 2(?: \+ 1)?\] = pixel\[\d\] as i16|let [al]32 = [^;]*|dst_row\.get_unchecked_mut\(dst_x\)\.0 = \[[^\]]*\])', body))
+    out += '/-- %s: horiz_convolution_one_row: every intrinsic / helper call with its arguments, in textual order, and the branches -/\n' % f2a
+    out += 'def u8x2_avx2_one_row_skeleton : String := "%s | %s"\n\n' % (sk.replace('"', '\\"'), extra.replace('"', '\\"'))
     # the vertical pass for 8-bit components (all four u8 pixel types)
     f = 'src/convolution/vertical_u8/sse4.rs'
     with open(os.path.join(repo, f)) as fh:
